@@ -563,6 +563,15 @@ func mutate(rng *core.Rand, raw, kind string) (string, bool) {
 				if !x.esc && len(x.s) == 1 && isUnreserved(x.s[0]) {
 					idx = append(idx, i)
 				}
+			case "enccase":
+				// an escape that decodes to an ASCII letter: %41 <-> %61
+				if x.esc {
+					var b byte
+					fmt.Sscanf(x.s[1:], "%02x", &b)
+					if (b|0x20) >= 'a' && (b|0x20) <= 'z' {
+						idx = append(idx, i)
+					}
+				}
 			case "slash", "dot", "dotdot":
 				if !x.esc && x.s == "/" {
 					idx = append(idx, i)
@@ -584,6 +593,10 @@ func mutate(rng *core.Rand, raw, kind string) (string, bool) {
 				}
 			}
 			t[i].s = string(b)
+		case "enccase":
+			var b byte
+			fmt.Sscanf(t[i].s[1:], "%02x", &b)
+			t[i].s = fmt.Sprintf("%%%02x", b^0x20)
 		case "pct":
 			f := "%%%02x"
 			if rng.Chance(1, 2) {
@@ -601,6 +614,31 @@ func mutate(rng *core.Rand, raw, kind string) (string, bool) {
 	}
 	out := untok(t)
 	return out, changed && out != raw
+}
+
+// encCaseSafe: with a '%' pattern in the list, re-casing an escaped letter of the request
+// (%41 <-> %61) is an equivalent spelling only if no '%' pattern compares such an escape in
+// escaped space or searches the raw text for a terminator: no '*' and no escape that decodes
+// to a letter in any pattern that contains '%'.
+func encCaseSafe(l []string) bool {
+	for _, p := range l {
+		if !strings.Contains(p, "%") {
+			continue
+		}
+		if strings.Contains(p, "*") {
+			return false
+		}
+		for _, x := range tokens(p) {
+			if x.esc {
+				var b byte
+				fmt.Sscanf(x.s[1:], "%02x", &b)
+				if (b|0x20) >= 'a' && (b|0x20) <= 'z' {
+					return false
+				}
+			}
+		}
+	}
+	return true
 }
 
 func hasPct(l []string) bool {
@@ -732,9 +770,11 @@ func runPath(line string, l []string, p, e string) core.Outcome {
 	}
 	// ---- spellings of the request target
 	if strings.HasPrefix(e, "/") {
-		kinds := []string{"hexcase", "dot", "dotdot"}
+		kinds := []string{"hexcase", "dot", "dotdot", "case"}
 		if !pct {
-			kinds = append(kinds, "case", "pct")
+			kinds = append(kinds, "pct", "enccase")
+		} else if encCaseSafe(l) {
+			kinds = append(kinds, "enccase")
 		}
 		if !dbl {
 			kinds = append(kinds, "slash")
@@ -765,19 +805,6 @@ func runPath(line string, l []string, p, e string) core.Outcome {
 			}
 			if raw != e {
 				try("mixed", raw)
-			}
-		}
-		// known upstream behaviour, kept under its own narrow class: a pattern that
-		// contains '%' is compared with the raw path, whose letters are not lower-cased
-		if pct {
-			for k := 0; k < 2; k++ {
-				if raw, ok := mutate(rng, e, "case"); ok {
-					if vu, err := url.ParseRequestURI(raw); err == nil && vu.RawQuery == "" && !vu.ForceQuery {
-						if got := implPathURL(l, vu); got != base {
-							fail("path-case:escaped-pattern", fmt.Sprintf("patterns %q (one contains %%): %q -> %s but %q -> %s", l, e, base, raw, got))
-						}
-					}
-				}
 			}
 		}
 	}
@@ -891,8 +918,6 @@ func runPathPair(kind string, l []string, p1, e1, p2, e2 string) core.Outcome {
 	pct, dbl := hasPct(l), hasDoubleSlash(l)
 	what := fmt.Sprintf("patterns %q: %q (raw %q) -> %s but %q (raw %q) -> %s", l, p1, e1, r1, p2, e2, r2)
 	switch {
-	case kind == "case" && pct:
-		o.Failures = append(o.Failures, core.Failure{Class: "path-case:escaped-pattern", What: what})
 	case kind == "slash" && dbl, kind == "pct" && pct:
 		// documented intent of a pattern with "//" resp. "%": not a failure
 		o.Tags = append(o.Tags, "pathpair:documented-mode")
